@@ -17,13 +17,13 @@ EllipsisC == T("const", "Ellipsis", 0, <<>>, <<>>)
 Split2(r) == {<<i, r - i>> : i \in 0..r}
 Split3(r) == {<<q[1], q[2], r - q[1] - q[2]>> : q \in {w \in (0..r) \X (0..r) : w[1] + w[2] <= r}}
 
-Leaves(sc) == {Name(sc[i]) : i \in 1..Len(sc)} \cup {Attr(Name(sc[Len(sc)]), "a"), IntC(1)}
+Leaves(sc) == {Name(sc[i]) : i \in 1..Len(sc)} \cup {Attr(Name(sc[Len(sc)]), "a"), IntC(1), StrC("s")}
 
 NonLeaf(h) ==
     LET b == h.n  sc == h.p  r == b - 1
         H(n) == Hole(n, sc)
     IN IF b = 0 THEN {} ELSE
-       {StrC("s"), BoolC(TRUE), FloatC("1.5"), NoneC, EllipsisC, IntC(0)} \cup
+       {BoolC(TRUE), FloatC("1.5"), NoneC, EllipsisC, IntC(0)} \cup
        {Attr(H(r), f) : f \in {"a", "value"}} \cup
        {Meth(H(r), "m", <<>>), Fn("f", <<H(r)>>), Fn("abs", <<H(r)>>), Fn("len", <<H(r)>>),
         CallK(Attr(Name("e"), "m"), <<>>, <<"kw">>, <<H(r)>>), Sub(H(r), Slice(IntC(1), Absent, Absent))} \cup
